@@ -515,6 +515,22 @@ int main(int argc, char** argv) {
           if (FS.bad) bad = "allocator misuse";
         }
       out = "N=" + std::to_string(N) + " runs=" + std::to_string(runs) + " ref=" + refErr.c_str() + (bad.empty() ? " all-ok" : " BAD " + bad);
+    } else if (op == "streamf") {
+      // successive filtered calls on one reader (counting reader and block-buffered std::istream)
+      int cfg, lim, chunk; string fhex, hex; is >> cfg >> lim >> chunk >> fhex >> hex;
+      if (cfg != cfgBits()) { std::cout << "cfg-mismatch\n"; continue; }
+      string in = unhex(hex); Block b(in); CountingReader r{b.p, in.size()}; r.chunk = (size_t)chunk;
+      BlockBuf bb(b.p, in.size(), 1 + in.size() % 7); std::istream bis(&bb);
+      JsonDocument fd; string f = unhex(fhex); deserializeJson(fd, f, DeserializationOption::NestingLimit(20));
+      for (int k = 0; k < 40; k++) {
+        JsonDocument d(&SPY0), d3(&SPY0);
+        DeserializationError e = deserializeJson(d, r, DeserializationOption::Filter(fd.as<JsonVariantConst>()), DeserializationOption::NestingLimit((uint8_t)lim));
+        DeserializationError e3 = deserializeJson(d3, bis, DeserializationOption::Filter(fd.as<JsonVariantConst>()), DeserializationOption::NestingLimit((uint8_t)lim));
+        out += string(e.c_str()) + " " + showS(d.as<JsonVariantConst>()) + " " + std::to_string(r.pos) + ";";
+        if (e != e3 || showS(d.as<JsonVariantConst>()) != showS(d3.as<JsonVariantConst>()) || bb.consumed() != r.pos) out += "ISTREAM-DIFFERS:block-buffered;";
+        if (e != DeserializationError::Ok) break;
+        if (r.pos >= in.size()) break;
+      }
     } else if (op == "stream" || op == "mpstream") {
       // successive calls on one reader until the input is exhausted or 40 calls were made
       int cfg = 0, lim, chunk; string hex;
